@@ -24,6 +24,7 @@ func init() {
 		c13CopyLoops(c)
 		c13KindBit(c)
 		wtPeekValidity(c, "C13.3b")
+		headerBytesComplete(c, "C13.3c") // the header is decoded from n complete bytes however the stream is fragmented
 		c14LengthForms(c) // C13.4 = C14.1-3
 		c13BufferOwnership(c)
 		c13Prepared(c)
@@ -34,6 +35,7 @@ func init() {
 		c14LengthForms(c)
 		c14DecoderNoExtraRejection(c)
 		wtPeekValidity(c, "C14.2c")
+		headerBytesComplete(c, "C14.2d")
 		c13NoPartialFrames(c) // C14.4: one frame per message
 		c13WholePayload(c)
 		c14WriteOnlyTwoBuffers(c)
@@ -157,7 +159,7 @@ func paramName(u *core.Unit, i int) string {
 	for _, f := range u.Type.Params.List {
 		for _, nm := range f.Names {
 			if n == i {
-				return nm.Name
+				return core.CanonIdent(u.Info(), nm)
 			}
 			n++
 		}
